@@ -43,6 +43,9 @@ FAULTS = {
     'expression_evaluation': ['K2 = 1 << -1', 'addi x1, x1, 1 << -1', 'li x5, 1 << (K1 - 20)', 'dw 1 >> -2', 'K2 = 7 // 0', 'db 7 % 0', 'lui x5, 1 << (K1 - 13)',
                               'K2 = K1 // (K1 - 12)', 'sw x1, x2, 4 % 0', 'pack <I 1 << -4'],
     'non_integer': ['K2 = 1.5', 'K2 = 4 / 2', 'K2 = "s"', 'addi x1, x1, 1.5', 'dw 2.0', 'li x5, 1e3', 'db 3 / 1', 'K2 = None', 'lw x8, 0.0(x8)', 'dh [1]'],
+    # a constant has no position: a position-relative modifier in its definition (at any nesting depth) names nothing
+    'position_relative_constant': ['K2 = %offset(START)', 'K2 = %hi(%offset(START))', 'K2 = %lo(%offset(K1))', 'K2 = %lo(%offset(sp))',
+                                   'K2 = %hi(%lo(%offset(K1)))', 'K2 = %lo(%offset(8))'],
     'error_directive': ['error this board is not supported', '  error indented message # with hash', 'error (paren, comma', 'error x'],
     'missing_include': ['include nosuch_file.asm', 'include "nosuch dir/f.asm"', 'include_bytes nosuch.bin', 'include'],
 }
